@@ -245,6 +245,67 @@ def main(run):
         kern.release()
         run.sample(dict(translation=text.strip().split("\n"), new=new, replaced=replaced, insert_after=insert_after, table=names))
     # ---------------- real models against the base model at independently translated parameters
+    # ---- insert_after placements of the derived table (no build needed): random partitions of the new parameters
+    # over anchors, plus the three misuses (unknown name, a name used twice, a new parameter never placed)
+    ia_cases, ia_metas = [], []
+    allbase = ["sel"] + BASE_PARS
+    for t in range(40 if not thorough else 300):
+        new = rng.sample(["a", "bb", "c3", "w", "zz"], rng.randint(1, 4))
+        replaced = rng.sample(BASE_PARS, rng.randint(1, 3))
+        kept_ = [p for p in allbase if p not in replaced]
+        anchors = rng.sample(kept_ + replaced + [""], rng.randint(1, 3))
+        groups = {a_: [] for a_ in anchors}
+        for n_ in new:
+            groups[rng.choice(anchors)].append(n_)
+        groups = {k: v for k, v in groups.items() if v}
+        kind = rng.choice(["ok", "ok", "ok", "unknown", "twice", "leftover", "bad-anchor"])
+        if kind == "unknown":
+            groups.setdefault(rng.choice(anchors), []).append("nosuch")
+        elif kind == "twice":
+            groups.setdefault(rng.choice(anchors), []).append(new[0])
+        elif kind == "leftover" and len(new) > 1:
+            for k_ in groups:
+                if new[-1] in groups[k_]:
+                    groups[k_] = [x for x in groups[k_] if x != new[-1]]
+            groups = {k: v for k, v in groups.items() if v}
+        elif kind == "bad-anchor":
+            groups["not_a_parameter"] = [new[0]]; 
+            for k_ in list(groups):
+                if k_ != "not_a_parameter" and new[0] in groups[k_]:
+                    groups[k_] = [x for x in groups[k_] if x != new[0]]
+            groups = {k: v for k, v in groups.items() if v}
+        text = "\n".join("    %s = %s" % (r_, new[0]) for r_ in replaced)
+        pdefs = [[n, "", 1.0, [-inf, inf], "", "new parameter " + n] for n in new]
+        ia = {k: ",".join(v) for k, v in groups.items()}
+        try:
+            info = reparameterize(base_info, pdefs, text, filename=os.path.join(pdir, "verif_ia_%d.py" % t), insert_after=ia)
+            got = [p.name for p in info.parameters.kernel_parameters]
+        except ValueError as exc:
+            got = None
+        evals += 1
+        stats["insert_after_tables"] = stats.get("insert_after_tables", 0) + 1
+        stats.setdefault("insert_after_kinds", {}); stats["insert_after_kinds"][kind] = stats["insert_after_kinds"].get(kind, 0) + 1
+        desc = dict(new=new, replaced=replaced, insert_after=ia, table=got, kind=kind)
+        # model-free statement: untouched parameters keep their order, every new one exactly once
+        if got is not None:
+            if [n for n in got if n in kept_] != kept_ or sorted(n for n in got if n not in kept_) != sorted(new):
+                run.add(Finding("C16:insert-after", "derived table %s for new=%s replaced=%s insert_after=%s" % (got, new, replaced, ia), desc))
+        qs = lambda l: coq_list(['"%s"' % x for x in l], "string")
+        ia_cases.append("(%s, %s, %s, %s, %s)" % (qs(allbase), qs(new), qs(replaced),
+                        coq_list(['("%s", %s)' % (k, qs(v)) for k, v in groups.items()], "(string * list string)"),
+                        "None" if got is None else "Some %s" % qs(got)))
+        ia_metas.append(desc)
+    if ia_cases and not run.proof_broken():
+        text = ("From Coq Require Import List String.\nImport ListNotations.\nOpen Scope string_scope.\nFrom SM Require Import C16.Exec.\n"
+                "Definition cases : list IACase := [\n%s\n].\nEval vm_compute in (check_ias cases).\n" % ";\n".join(ia_cases))
+        rc, vals, err = common.run_coq_shards([text], run.scratch.sub("coqia"), prefix="c16ia")[0]
+        if rc != 0 or not vals:
+            run.add(Finding("corr:C16:coq", "insert_after correspondence failed to evaluate: %s" % err[-300:], {"correspondence": "C16.Exec.check_ias", "stderr": err[-1500:]}, no_input=True))
+        else:
+            for i in vals[0]:
+                m = ia_metas[i]
+                run.add(Finding("C16:corr:insert-after", "derived table %s (None = refused) for new=%s replaced=%s insert_after=%s differs from the Coq model of _insert_after" % (
+                    m["table"], m["new"], m["replaced"], m["insert_after"]), m))
     real = [
         ("ellipsoid", [["volume", "Ang^3", 1e5, [0, inf], "volume", ""], ["eccentricity", "", 1, [0, inf], "volume", ""]],
          "Re = cbrt(volume/eccentricity/M_4PI_3)\nradius_polar = eccentricity*Re\nradius_equatorial = Re",
